@@ -61,6 +61,15 @@ pub fn vx_string_trim(s: &String) -> (r: &str) {
     s.trim()
 }
 
+/// `format!("{}{}", a, b)` of two strings (N6 with contents)
+#[verifier::external_body]
+pub fn vx_concat2(a: &str, b: &String) -> (r: String)
+    ensures
+        r@ == a@ + b@,
+{
+    format!("{}{}", a, b)
+}
+
 /// str::len in bytes (N11)
 #[verifier::external_body]
 pub fn vx_str_len(s: &str) -> (r: usize)
